@@ -104,6 +104,33 @@ Theorem C02_kernel_mailbox_order_run : forall roles ls s s' os,
 Proof. intros roles ls. exact (krun_queue roles ls). Qed.
 Print Assumptions C02_kernel_mailbox_order_run.
 
+(* Order, end to end ("handled in the order they were sent"): every send takes the next value of the system-wide serial
+   counter; for every role table, every run from the freshly started system and every actor object v, the serials of the
+   user messages v shows as handled (Handled observations with a user-message trigger in the steps that run v's mailbox),
+   in the order in which it handles them, never decrease — whatever failures, suspensions, restarts, terminations and
+   spawns happen in between. (Two copies of one broadcast carry the same serial; they go to different children.) *)
+From MV Require Import Kernel.Order.
+From Coq Require Import Sorted.
+Theorem C02_handled_in_send_order : forall roles ls s os v,
+  krun roles kinit ls = Some (s, os) -> Sorted le (trace v ls os).
+Proof. exact handled_in_send_order. Qed.
+Print Assumptions C02_handled_in_send_order.
+
+(* ... because in every reachable state what waits in a mailbox (in flight, then queued) is sorted by serial and no
+   serial exceeds the counter *)
+Theorem C02_mailboxes_sorted_by_serial : forall roles ls s os v a,
+  krun roles kinit ls = Some (s, os) -> get s v = Some a ->
+  Sorted le (serials (seq a)) /\ Forall (fun k => (k <= serial s)%nat) (serials (seq a)).
+Proof. intros roles ls s os v a H G. exact (mailboxes_sorted roles ls kinit s os (SI_init) H v a G). Qed.
+Print Assumptions C02_mailboxes_sorted_by_serial.
+
+Example C02_handled_in_send_order_example :
+  (* an actor is spawned, launched, told 10, asked 11, told 12; handles two; told 13; handles two: serials 1 2 3 4 *)
+  let ls := [LSpawn 5 1; LRun 2; LTell 5 10; LAsk 5 11; LTell 5 12; LRun 2; LRun 2; LTell 5 13; LRun 2; LRun 2] in
+  let r0 := {| victim := None; sup := []; rules := [] |} in
+  exists s os, krun [r0; r0] kinit ls = Some (s, os) /\ trace 2 ls os = [1; 2; 3; 4]%nat.
+Proof. eexists. eexists. split; vm_compute; reflexivity. Qed.
+
 Example C02_kernel_example :
   (* a message to an address that never existed becomes exactly one dead letter *)
   exists s os, krun [] kinit [LTell 7%Z 1%Z; LRun 1%Z] = Some (s, os) /\ os = [[OS rGuard 7%Z 1%nat; OD rNone 7%Z 1%nat]; []].
